@@ -1,0 +1,51 @@
+// Copyright 2017-2021 Lei Ni (nilei81@gmail.com) and other contributors.
+//
+// Licensed under the Apache License, Version 2.0 (the "License");
+// you may not use this file except in compliance with the License.
+// You may obtain a copy of the License at
+//
+//     http://www.apache.org/licenses/LICENSE-2.0
+//
+// Unless required by applicable law or agreed to in writing, software
+// distributed under the License is distributed on an "AS IS" BASIS,
+// WITHOUT WARRANTIES OR CONDITIONS OF ANY KIND, either express or implied.
+// See the License for the specific language governing permissions and
+// limitations under the License.
+
+//go:build verif
+// +build verif
+
+package tan
+
+// This file is only compiled with the `verif` build tag. The background
+// goroutine deleting obsolete files is replaced by a job handed to the
+// deterministic simulation harness, which runs the same deleteObsoleteFiles
+// function later as a task of its own.
+
+const verifEnabled = true
+
+// VerifObsoleteHook receives the deletion job each time the worker would have
+// been notified. When nil the job is dropped (obsolete files stay).
+var VerifObsoleteHook func(name string, job func() error)
+
+func (d *db) verifNotifyDeleteObsolete() {
+	if h := VerifObsoleteHook; h != nil {
+		h(d.name, d.deleteObsoleteFiles)
+	}
+}
+
+// VerifMaxLogFileSize and VerifMaxManifestFileSize, when non zero, replace the
+// default file sizes that trigger a log / manifest rollover.
+var (
+	VerifMaxLogFileSize      int64
+	VerifMaxManifestFileSize int64
+)
+
+func (o *Options) verifOverride() {
+	if o.MaxLogFileSize == 0 && VerifMaxLogFileSize > 0 {
+		o.MaxLogFileSize = VerifMaxLogFileSize
+	}
+	if o.MaxManifestFileSize == 0 && VerifMaxManifestFileSize > 0 {
+		o.MaxManifestFileSize = VerifMaxManifestFileSize
+	}
+}
